@@ -9,6 +9,8 @@ cd /verif
 ./check "$PROP" --tier "$TIER" > /tmp/try_seed.out 2>&1
 RC=$?
 git -C /repo checkout -- .
+# the run above rewrote evidence/<id>.json for a modified tree: put the committed evidence back
+git -C /verif checkout -- "evidence/$PROP.json" 2>/dev/null
 echo "exit=$RC"
 grep -E "^VIOLATION|^UNDECIDED|^ENGINE-ERROR|^KNOWN" /tmp/try_seed.out | cut -c1-260 | head -8
 exit 0
